@@ -39,6 +39,10 @@ CHECKS = {
                 tech="TLC trace validation of all well-formed conditional structures against the conditional stack of Assembler.tla",
                 text="Every well-formed nesting structure (if / elif* / else? / endif, nesting <= 3) up to 7 lines (thorough 9), instantiated with all-true, all-false and seeded truth assignments over literal, .equ and .define conditions, with marker instructions, messages, garbage text, .define and label definitions in the branches; TLC's reference (stack with taken flag) must give the same image, messages and error status.",
                 note=TB + "; ill-formed chains not generated"),
+    "C09": dict(level="model_checking", ref="3 C09",
+                tech="TLC trace validation of macro programs against the syntax-tree substitution of Assembler.tla",
+                text="40 macro bodies (register, repeated parameter, one operator of every precedence level on either side of the parameter, data, index forms, conditionals on parameters, nested calls with permuted parameters, bodies switching to the data and EEPROM segments) x seeded argument sets x five call placements x letter case of definition and call, plus missing-argument and undefined-macro variants; TLC expands on the syntax tree (argument substituted as a unit) and requires the same image or error.",
+                note=TB + "; labels in bodies called twice, macros defined in bodies, unbounded recursion not generated"),
     "C10": dict(level="model_checking", ref="3 C10",
                 tech="TLC trace validation of symbol programs and their single-line deletion/duplication mutants against Assembler.tla",
                 text="Seeded random programs over labels, .equ, .set, .def/.undef and uses in instructions and data, each line spelled in lower/upper/mixed case, plus every single-line deletion and every duplication with a specified outcome, plus hand-shaped corners; TLC's binding rules (global labels/.equ, sequential .set/.def) decide image or error.",
